@@ -98,7 +98,9 @@ PanicProps(p) == Lc(p) > 8 \/ Pb(p) > 4
 DictOverflows(d) == d \in {"2G", "4G-16", "4G-1"}                     \* dict_size as i32 + 1 is negative
 PanicDict(p) == ~LzipFamily(p.w) /\ (DictZero(p.dict) \/ DictOverflows(p.dict))
 PanicSize(p) == p.w = "lzma2mt" /\ p.sz = "huge"                      \* Vec::with_capacity(chunk_size)
-PanicNice(p) == p.nice < 2 \/ (p.nice = 2) \/ (p.nice = 3 /\ p.mf = "bt4") \/ p.nice > 273
+\* nice_len > 273: the optimal parser (normal mode) emits lengths the length coder has no symbol for - a panic or,
+\* on long runs, a stream that silently decodes to other bytes; the fast mode caps lengths at 273 itself
+PanicNice(p) == p.nice < 2 \/ (p.nice = 2) \/ (p.nice = 3 /\ p.mf = "bt4") \/ (p.nice > 273 /\ p.mode = "normal")
 PanicFilter(p) == p.w = "xz" /\ p.ft = "delta" /\ p.fv = "0"
 EncoderPanics(p) ==
   \/ (~VProps /\ PanicProps(p)) \/ (~VDict /\ PanicDict(p)) \/ (~VNice /\ PanicNice(p)) \/ (~VFilter /\ PanicFilter(p))
